@@ -44,8 +44,10 @@ impl StateMachine<'_> {
                         .paint(commit.chars().take(12).collect::<String>()),
                 )?;
             }
+            Ok(true)
+        } else {
+            Ok(false)
         }
-        Ok(true)
     }
 }
 
